@@ -57,6 +57,14 @@ class ConstructorMismatch(Exception):
         self.case = case
 
 
+def spell(rng, d):
+    """a parametric direction in one of the spellings the API documents: index, lower-case or upper-case letter"""
+    r = rng.random()
+    if d is None or d > 2 or r < 0.5:
+        return d
+    return 'uvw'[d] if r < 0.75 else 'UVW'[d]
+
+
 def fuzz_knots(rng, spec, prob=1.0):
     """Copies of one knot that agree to within the knot tolerance but are not bit-identical (what
     insert_knot(0.1 + 0.2) next to an existing 0.3 leaves behind): in every non-periodic direction that has an interior knot
